@@ -65,4 +65,15 @@ def handleProxyCmds (l : Line) : List Verdict :=
     pure (verdictsOf [] viol)
   r.getD [Verdict.bad "proxycmds"]
 
+/-- every cookie the SSO server sets or clears - under whatever Host it was reached - is scoped to the SSO domain -/
+def handleSsoCookie (l : Line) : List Verdict :=
+  let r : Option (List Verdict) := do
+    let host ← l.str? "host"
+    let op ← l.str? "op"
+    let name ← l.str? "name"
+    let domain ← l.str? "domain"
+    let ssodomain ← l.str? "ssodomain"
+    pure (verdictsOf [] (if domain.toLower != ssodomain.toLower then [("C16.cookie_domain", s!"the SSO server (Host {host}, {op}) wrote cookie {name} with Domain '{domain}' instead of the SSO domain '{ssodomain}'")] else []))
+  r.getD [Verdict.bad "ssocookie"]
+
 end Ww.Driver
